@@ -56,3 +56,71 @@ def unit_value_ctor():
     t = rewrite(t, R_TYPES + R_LIMITS)
     t = r_throw(t, THROW_TABLE)
     return t + '\n#include "h_valuector.h"\n'
+
+def unit_getopcode():
+    """the opcode-name table: GetOpCode (debugger/script.cpp) with HexDigit / IsHex (util/strencodings.cpp)"""
+    t = '#include "verif_std.h"\n#include "opname_env.h"\n'
+    t += block('script/script.h', r'^enum opcodetype')
+    t += between('util/strencodings.cpp', r'^const signed char p_util_hexdigit\[256\] =', r'^bool IsHex\(std::string_view str\)', include_end=False)
+    ih = block('util/strencodings.cpp', r'^bool IsHex\(std::string_view str\)', trailing=None)
+    ih = rewrite(ih, [(r'for \(char c : str\) \{', 'for (size_t verif_k = 0; verif_k < str.size(); ++verif_k) { char c = str[verif_k];', 1)])
+    t += ih
+    t += block('debugger/script.cpp', r'^opcodetype GetOpCode\(const char\* name\)', trailing=None, open_at_bol=True)
+    return t + '\n#include "h_getopcode.h"\n'
+
+def unit_pretend_valid():
+    """Instance::parse_pretend_valid_expr (instance.cpp): the --pretend-valid pair-list parser"""
+    t = '#include "verif_std.h"\n#include "ppv_env.h"\n'
+    f = block('instance.cpp', r'^bool Instance::parse_pretend_valid_expr\(const char\* expr\)', trailing=None)
+    t += rewrite(f, R_TYPES)
+    return t + '\n#include "h_pretend_valid.h"\n'
+
+def unit_cfg_taproot():
+    """the witness-v1 branch of Instance::configure_tx_txin (instance.cpp): annex, key path / script path, control-block size rule,
+    leaf version, tapscript signature budget, initial stack - R-PARTIAL: the branch body wrapped as a function of the objects it uses"""
+    from props import units_enc as UE
+    from props import units_step as US
+    t = '#include "verif_std.h"\n#include "enc_env.h"\n'
+    t += block('script/script.h', r'^enum opcodetype')
+    t += block('script/script.h', r'^class CScriptNum$')
+    cs = UE.cscript_members()
+    cs = rewrite(cs, [(r'    CScript\(\) \{ \}\n', '    CScript() { }\n    CScript(const unsigned char* b, const unsigned char* e) { size_t k = (size_t)(e - b); VERIF_LIMIT(k <= VERIF_SCRIPT_CAP, "byte vector storage capacity"); for (size_t i = 0; i < VERIF_SCRIPT_CAP; ++i) if (i < k) s.a[i] = b[i]; n = k; }\n', 1)])
+    t += cs
+    t += between('script/script.h', r'^static constexpr unsigned int ANNEX_TAG = ', r'^', include_end=False)
+    t += rewrite(between('script/script.h', r'^static constexpr int64_t VALIDATION_WEIGHT_OFFSET\{50\};', r'^', include_end=False), [(r'VALIDATION_WEIGHT_OFFSET\{50\};', 'VALIDATION_WEIGHT_OFFSET = 50;', 1)])
+    t += block('script/interpreter.h', r'^enum class SigVersion')
+    t += '#include "cfgtap_env.h"\n'
+    t += r_nsdmi(rewrite(block('script/interpreter.h', r'^struct ScriptExecutionData'), US.ENV_RULES), 'ScriptExecutionData', 4)
+    t += between('script/interpreter.h', r'^/\*\* Signature hash sizes \*/', r'^extern const HashWriter HASHER_TAPSIGHASH', include_end=False)
+    h, body = body_of('instance.cpp', r'^        \} else if \(witprogver == 1\) \{')
+    body = body.rstrip()
+    if not body.endswith('}'):
+        raise SliceError("configure_tx_txin: witness-v1 branch does not end with its closing brace")
+    body = body[:-1] + '    return true;\n}\n'
+    body = rewrite(body, [(r'auto stack = wstack;', 'verif_stack stack = wstack;', 1),                                  # R-AUTO
+                          (r'\(HashWriter\{\} << stack\.back\(\)\)\.GetSHA256\(\)', '(HashWriter() << stack.back()).GetSHA256()', 1),   # R-BRACEINIT
+                          (r'auto control = std::move\(stack\.back\(\)\);', 'verif_bytes control = stack.back();', 1),       # R-AUTO, R-MOVE
+                          (r'tce = new TaprootCommitmentEnv\(', 'tce = verif_new_tce(', 1)])                               # R-NEW: allocation -> the one modelled object
+    code_only = re.sub(r'"(?:[^"\\\n]|\\.)*"', '""', re.sub(r'//[^\n]*', '', body))
+    if re.search(r'\bauto\b|\bnew\b|std::move', code_only):
+        raise SliceError("configure_tx_txin witness-v1 branch: an auto / new / std::move form without rewrite rule is left")
+    t += '// ---- R-PARTIAL: body of the `witprogver == 1` branch of Instance::configure_tx_txin as a function of the objects it uses\n'
+    t += 'static bool verif_cfg_taproot(verif_stack& wstack, verif_bytes& program, ScriptExecutionData& execdata, CScript& validation, CScript& scriptPubKey, SigVersion& sigver, bool& has_preamble, size_t& wstack_to_stack, TaprootCommitmentEnv*& tce)\n'
+    t += body
+    # the legacy (no witness) branch of the same function
+    # (located structurally: the else-branch of `if (wstack.size() > 0) {`, so that edits of its comment do not break the anchor)
+    import slice as _S
+    src = _S._read('instance.cpp')
+    ms = list(re.finditer(r'^    if \(wstack\.size\(\) > 0\) \{', src, re.M))
+    if len(ms) != 1: raise SliceError("configure_tx_txin: `if (wstack.size() > 0) {` not found exactly once")
+    e = _S._scan(src, src.index('{', ms[0].start()))
+    me = re.match(r' else \{', src[e:])
+    if not me: raise SliceError("configure_tx_txin: no else-branch after the witness branch")
+    e2 = _S._scan(src, e + me.end() - 1)
+    a_, b_ = _S._note('instance.cpp', src, e, e2)
+    lb = f"// ---- sliced verbatim from instance.cpp:{a_}-{b_}\n" + src[e + me.end() - 1:e2] + "\n"
+    t += '// ---- R-PARTIAL: body of the legacy branch of Instance::configure_tx_txin\n'
+    t += 'static void verif_cfg_legacy(CScript& scriptSig, CScript& scriptPubKey, SigVersion& sigver, CScript& script, CScript& successor_script)\n' + lb.rstrip() + '\n'
+    t = rewrite(t, R_TYPES + R_LIMITS)
+    t = r_throw(t, THROW_TABLE)
+    return t + '\n#include "h_cfgtap.h"\n'
